@@ -6,7 +6,14 @@ ImplicitFuncComp (declare_partials method 'cs' or 'jax', optional declare_colori
 JaxImplicitComponent subclass whose compute_primal is written with jax.numpy (automatic or declared partials, optional
 declare_coloring, use_jit on/off, matrix_free).  Implicit forms: R(x, y) = y - e(x)  or  R(x0, y) = e(x0, y) (the second
 variable of the tree is the state).  Outputs / residuals and partials (totals for explicit components, component
-sub-Jacobians for all) are compared with the spec's trees evaluated by NumPy."""
+sub-Jacobians for all) are compared with the spec's trees evaluated by NumPy.
+
+Second family ('multi'): components with SEVERAL inputs and outputs / states.  spec/mech/FuncSig.tla enumerates every
+structure (argument order of the function: states before / between / after the inputs, order of the return values,
+order of the add_output calls, named or positional return values, shapes -> partial derivative direction) and checks the
+laws of the positional bookkeeping; spec/mech/FuncSigJudge.tla composes a seeded selection of structures with Expr.tla
+trees and derives, by NAME, the expected residual / output trees, every Jacobian block D(tree, argument) and the domain
+side-conditions.  The scenarios are rendered as source and replayed like the single-output ones."""
 import importlib.util
 import json
 import os
@@ -267,8 +274,351 @@ def compare(rec, cfg, obj, pts, yvals):
     return fails, info
 
 
+
+# ---------------------------------------------------------------------------------------------------------------------
+# 'multi' family: several inputs and outputs / states (spec/mech/FuncSig.tla, FuncSigJudge.tla)
+# ---------------------------------------------------------------------------------------------------------------------
+SIG_LAWS = ['TypeOK', 'ColsLaw', 'OffsetLaw', 'RotationLaw', 'DirLaw', 'KeptLaw']
+JUDGE_LAWS = ['JWellFormed', 'JZeroLaw', 'JLinLaw', 'JRenLaw', 'JOrderLaw']
+
+
+def enumerate_structures(ctx, thorough, workers=None):
+    """every structure of FuncSig.tla (laws checked by TLC) with the derived direction / column layout"""
+    cfg = ctx.write_cfg('FuncSig.cfg', '\n'.join(
+        ['CONSTANTS', '  MaxIn = 3', '  MaxOut = 2', '  YShapes = %s' % c14.tla_set(['s1', 'v', 'm'] if thorough else ['s1', 'v']),
+         'INIT Init', 'NEXT Next'] + ['INVARIANT %s' % l for l in SIG_LAWS] + ['INVARIANT Export']) + '\n')
+    kw = {'timeout': 1800, 'heap': '4g', 'coverage': False}
+    if workers:
+        kw['workers'] = workers
+    r = ctx.tlc_check('mech/FuncSig', cfg, **kw)
+    st = r.exports('EXP')
+    if not st or len(st) + len({json.dumps(x['s']['sig']) for x in st}) < 100:
+        raise MachineryError('FuncSig exported %d structures:\n%s' % (len(st), r.tail()))
+    return st
+
+
+def struct_class(st):
+    """coverage class of a structure: component kind, direction of the partials, where the states are in the signature"""
+    s, v = st['s'], st['v']
+    kind = {(True, 'func'): 'ifc', (False, 'func'): 'efc', (True, 'class'): 'jimp', (False, 'class'): 'jexp'}[
+        (bool(s['impl']), s['api'])]
+    if not s['impl']:
+        where = 'perm' if s['sig'] != sorted(s['sig']) else 'sorted'
+    elif not v['kept']:
+        where = 'state-order-differs'
+    elif v['trail']:
+        where = 'states-last'
+    else:
+        where = 'interleaved'
+    return kind, v['dir'], where
+
+
+def multi_configs(st, thorough):
+    kind = struct_class(st)[0]
+    arrays = st['s']['ysh'] != 's1'
+    out = {'cs': [], 'jax': []}
+    if kind in ('efc', 'ifc'):
+        for meth in ('cs', 'jax'):
+            for col in ((False, True) if arrays else (False,)):
+                for jit in ((True, False) if meth == 'jax' else (True,)):
+                    out[meth].append({'fam': 'multi', 'kind': kind, 'meth': meth, 'col': col, 'jit': jit, 'decl': 'star',
+                                      'mf': False})
+    else:
+        for decl in ('auto', 'star'):
+            for col in ((False, True) if arrays else (False,)):
+                for jit in (True, False):
+                    out['jax'].append({'fam': 'multi', 'kind': kind, 'meth': 'jax', 'col': col, 'jit': jit, 'decl': decl,
+                                       'mf': False})
+    return out
+
+
+def compose_case(st, recs, rnd, cs_only):
+    """a structure + one Expr.tla tree per output with its variables bound to arguments (spec: FuncSigJudge.Legal)"""
+    s = st['s']
+    outs = sorted(s['ret'])
+    args = list(s['sig'])
+    full = [a for a in args if a in outs or s['ish'][a] == s['ysh']]
+    trees, bind, form = {}, {}, {}
+    for o in outs:
+        for _ in range(200):
+            rec = recs[rnd.randrange(len(recs))]
+            if cs_only and (tree_funcs(rec['e']) & NOT_CS_SAFE):
+                continue
+            break
+        else:
+            return None
+        used = sorted(rec['vars'])
+        form[o] = rnd.choice(['lin', 'raw', 'raw']) if s['impl'] else 'raw'
+        for _ in range(50):
+            b = {'x0': rnd.choice(args), 'x1': rnd.choice(args)}
+            if len(args) > 1 and b['x0'] == b['x1'] and rnd.random() < 0.8:
+                continue                       # mostly injective bindings (distinct blocks)
+            if form[o] == 'lin' or any(b[v] in full for v in used):
+                break
+        else:
+            form[o] = 'lin' if s['impl'] else None
+            if form[o] is None:
+                return None
+        trees[o], bind[o] = rec['e'], b
+    return {'sc': s, 'trees': trees, 'bind': bind, 'form': form}
+
+
+def judge_cases(ctx, cases, workers=None):
+    """FuncSigJudge.tla: expected trees / blocks / domains of every composed case"""
+    path = ctx.write_json('c34_cases.json', cases)
+    cfg = ctx.write_cfg('FuncSigJudge.cfg', '\n'.join(
+        ['CONSTANTS', '  MaxIn = 3', '  MaxOut = 2', '  YShapes = {"s1", "v", "m"}', 'INIT JInit', 'NEXT JNext'] +
+        ['INVARIANT %s' % l for l in JUDGE_LAWS] + ['INVARIANT JExport']) + '\n')
+    kw = {'timeout': 1800, 'heap': '4g', 'coverage': False, 'env': {'C34_CASES': path}}
+    if workers:
+        kw['workers'] = workers
+    r = ctx.tlc_check('mech/FuncSigJudge', cfg, **kw)
+    got = {e['tid']: e for e in r.exports('EXP')}
+    if len(got) != len(cases) or r.distinct != 2 * len(cases):
+        raise MachineryError('FuncSigJudge returned %d verdicts for %d cases (%d states):\n%s'
+                             % (len(got), len(cases), r.distinct, r.tail()))
+    out = []
+    for i in range(len(cases)):
+        e = got[i + 1]
+        if not e['legal'] or len(e['x']) != 1:
+            raise MachineryError('FuncSigJudge: case %d composed by the harness is not legal: %s'
+                                 % (i + 1, json.dumps(cases[i])[:600]))
+        out.append(dict(e['x'][0]['core'], v=e['x'][0]['v']))
+    return out
+
+
+def m_args(case):
+    return list(case['sc']['sig'])
+
+
+def m_outs(case):
+    return sorted(case['sc']['ret'])
+
+
+def m_shapes(case):
+    s = case['sc']
+    return {a: SHP[s['ysh'] if a in s['ret'] else s['ish'][a]] for a in list(s['sig']) + list(s['ret'])}
+
+
+def m_inorder(case):
+    s = case['sc']
+    return [a for a in s['sig'] if a not in s['ret']]
+
+
+def gen_source_multi(case, x, cfg, tag):
+    s = case['sc']
+    impl = bool(s['impl'])
+    lib = 'np.' if s['api'] == 'func' else 'jnp.'
+    expr = {o: render(x['res'][o], 'np', lib) for o in s['ret']}
+    if s['api'] == 'func':
+        src = ['def f_%s(%s):' % (tag, ', '.join(s['sig']))]
+        if s['style'] == 'named':
+            rn = {o: ('r_' + o if impl else o) for o in s['ret']}
+            for o in sorted(s['ret']):
+                src.append('    %s = %s' % (rn[o], expr[o]))
+            src.append('    return %s' % ', '.join(rn[o] for o in s['ret']))
+        else:
+            src.append('    return %s' % ', '.join(expr[o] for o in s['ret']))
+        return '\n'.join(src) + '\n'
+    shapes = m_shapes(case)
+    base = 'JaxImplicitComponent' if impl else 'JaxExplicitComponent'
+    src = ['class C_%s(om.%s):' % (tag, base), '    def setup(self):']
+    for a in m_inorder(case):
+        src.append('        self.add_input(%r, shape=%r)' % (a, shapes[a]))
+    for o in s['decl']:
+        src.append('        self.add_output(%r, shape=%r)' % (o, shapes[o]))
+    sp = []
+    if cfg['decl'] == 'star':
+        sp.append('        self.declare_partials(of=\'*\', wrt=\'*\')')
+    if cfg['col']:
+        sp.append('        self.declare_coloring()')
+    if sp:
+        src.append('    def setup_partials(self):')
+        src += sp
+    src += ['    def compute_primal(self, %s):' % ', '.join(s['sig']),
+            '        return %s' % ', '.join(expr[o] for o in s['decl'])]
+    return '\n'.join(src) + '\n'
+
+
+def build_multi(case, cfg, obj):
+    import openmdao.api as om
+    import openmdao.func_api as omf
+    s = case['sc']
+    shapes = m_shapes(case)
+    kw = {} if cfg['jit'] else {'use_jit': False}
+    if s['api'] == 'func':
+        w = omf.wrap(obj)
+        for a in sorted(m_inorder(case)):
+            w.add_input(a, shape=shapes[a])
+        for o in s['decl']:
+            if s['impl']:
+                w.add_output(o, resid='r_' + o, shape=shapes[o])
+            else:
+                w.add_output(o, shape=shapes[o])
+        w.declare_partials(of='*', wrt='*', method=cfg['meth'])
+        if cfg['col']:
+            w.declare_coloring(wrt='*', method=cfg['meth'], show_summary=False)
+        comp = om.ImplicitFuncComp(w, **kw) if s['impl'] else om.ExplicitFuncComp(w, **kw)
+    else:
+        comp = obj(**kw)
+    p = om.Problem()
+    p.model.add_subsystem('c', comp)
+    p.setup(force_alloc_complex=(cfg['meth'] == 'cs'))
+    p.final_setup()
+    return p, comp
+
+
+def observe_multi(p, comp, case, pt):
+    import numpy as np
+    s = case['sc']
+    outs, ins = m_outs(case), m_inorder(case)
+    for a in ins:
+        p.set_val('c.' + a, pt[a])
+    o = {'val': {}, 'sub': {}, 'tot': {}}
+    if s['impl']:
+        for y in outs:
+            p.set_val('c.' + y, pt[y])
+        p.model.run_apply_nonlinear()
+        for y in outs:
+            o['val'][y] = np.array(comp._residuals[y], dtype=float)
+        p.model.run_linearize()
+    else:
+        p.run_model()
+        for y in outs:
+            o['val'][y] = np.array(p.get_val('c.' + y), dtype=float)
+        tot = p.compute_totals(of=['c.' + y for y in outs], wrt=['c.' + a for a in ins])
+        o['tot'] = {(y, a): np.array(tot['c.' + y, 'c.' + a], dtype=float) for y in outs for a in ins}
+    sj = comp._get_jacobian()._get_subjacs()
+    for y in outs:
+        for a in s['sig']:
+            key = ('c.' + y, 'c.' + a)
+            if key in sj:
+                o['sub'][(y, a)] = np.array(sj[key].todense(), dtype=float)
+    col = comp._coloring_info.coloring
+    o['colors'] = None if col is None else int(col.total_solves())
+    o['dir'] = comp.best_partial_deriv_direction()
+    return o
+
+
+def multi_recs(case, x):
+    """per output a record in the form of an Expr.tla export (tree, derivative trees, variables)"""
+    return {o: {'e': x['res'][o], 'd': {w: x['d'][o][w] for w in x['vars'][o]}, 'vars': sorted(x['vars'][o])}
+            for o in m_outs(case)}
+
+
+def multi_point_rec(case, x):
+    """one record whose constraints / magnitudes cover every output, for c14.choose_point"""
+    def add(ts):
+        t = ts[0]
+        for u in ts[1:]:
+            t = {'t': 'bin', 'f': 'add', 'k': 0, 'c': [t, u]}
+        return t
+    outs, args = m_outs(case), m_args(case)
+    dom = [cn for o in outs for cn in x['dom'][o]]
+    return {'vars': args, 'dom': dom, 'e': add([x['res'][o] for o in outs]),
+            'd': {w: add([x['d'][o][w] for o in outs]) for w in args}}
+
+
+def nonsmooth_multi(x):
+    return any(tree_funcs(t) & {'maximum', 'minimum', 'abs'} for t in x['res'].values())
+
+
+def compare_multi(case, x, cfg, obj, pts):
+    import numpy as np
+    fails, info = [], {}
+    s = case['sc']
+    try:
+        p, comp = build_multi(case, cfg, obj)
+    except Exception as e:
+        return [('setup of a legal configuration raised %s' % type(e).__name__, 'setup succeeds', str(e)[:400], 0)], info
+    shapes = m_shapes(case)
+    ysh = SHP[s['ysh']]
+    ny = int(np.prod(ysh))
+    recs = multi_recs(case, x)
+    what = 'residual' if s['impl'] else 'output'
+    for ip, pt in enumerate(pts):
+        try:
+            o = observe_multi(p, comp, case, pt)
+        except Exception as e:
+            fails.append(('evaluation / linearization raised %s' % type(e).__name__, 'succeeds', str(e)[:400], ip))
+            break
+        if ip == 0:
+            info['colors'], info['dir'] = o['colors'], o['dir']
+        exp = {y: expected(recs[y], pt, ysh) for y in recs}
+        tol = RTOL * max(e[2] for e in exp.values())
+        for y in sorted(recs):
+            ev_, eJ, _ = exp[y]
+            val = o['val'][y]
+            if tuple(val.shape) != tuple(ysh):
+                fails.append(('%s %s shape' % (what, y), list(ysh), list(val.shape), ip))
+                continue
+            if not np.all(np.abs(val.ravel() - ev_) <= tol):
+                fails.append(('%s %s differs from the wrapped function (the spec tree evaluated with NumPy)' % (what, y),
+                              ev_, val.ravel(), ip))
+            for w in s['sig']:
+                E = eJ[w] if w in eJ else np.zeros((ny, int(np.prod(shapes[w]))))
+                if (y, w) in o['tot']:
+                    T = o['tot'][(y, w)]
+                    if T.shape != E.shape or not np.all(np.abs(T - E) <= tol):
+                        fails.append(('total derivative d%s/d%s differs from the spec derivative tree' % (y, w), E, T, ip))
+                S = o['sub'].get((y, w))
+                if S is None:
+                    if np.any(np.abs(E) > tol):
+                        fails.append(('sub-Jacobian (%s,%s) is absent but the exact derivative is nonzero' % (y, w), E,
+                                      None, ip))
+                elif S.shape != E.shape or not np.all(np.abs(S - E) <= tol):
+                    fails.append(('sub-Jacobian (%s,%s) differs from the spec derivative tree' % (y, w), E, S, ip))
+        if fails:
+            break
+    return fails, info
+
+
+def multi_points(case, x, cfg, rs):
+    rec = multi_point_rec(case, x)
+    shapes = m_shapes(case)
+    pts = []
+    for _ in range(cfg.get('npts', 2)):
+        pt = choose_point(rec, {a: shapes[a] for a in rec['vars']}, rs)
+        if pt is None:
+            break
+        pts.append(pt)
+    return pts
+
+
+def run_one_multi(case, x, cfg, pts, workdir):
+    import numpy as np
+    quiet()
+    path = os.path.join(workdir, 'c34onem.py')
+    with open(path, 'w') as f:
+        f.write(HEADER + gen_source_multi(case, x, cfg, 'k'))
+    mod = load_module(path, 'c34onem')
+    obj = getattr(mod, ('f_' if case['sc']['api'] == 'func' else 'C_') + 'k')
+    pts = [{v: np.array(a, dtype=float) for v, a in pt.items()} for pt in pts]
+    return compare_multi(case, x, cfg, obj, pts)
+
+
+def snippet_multi(case, x, cfg, pts):
+    return '\n'.join([
+        '# PYTHONPATH=/verif/harness JAX_PLATFORMS=cpu /venv/bin/python this_file.py',
+        'import numpy as np, json, os, tempfile',
+        'from vf.drivers import c34',
+        'case = %s' % json.dumps(case),
+        'x = %s   # expectation derived by spec/mech/FuncSigJudge.tla' % json.dumps(x),
+        'cfg = %s' % json.dumps(cfg),
+        'pts = %s' % json.dumps(pts),
+        'print(c34.gen_source_multi(case, x, cfg, "k"))',
+        'print(c34.run_one_multi(case, x, cfg, pts, tempfile.mkdtemp()))'])
+
+
+_MCASES = []
+
+
 _RECS = []
 _WORK = None
+
+
+def _is_multi(cfg):
+    return cfg.get('fam') == 'multi'
 
 
 def _worker(arg):
@@ -280,15 +630,32 @@ def _worker(arg):
     # one generated module per chunk (the components parse their function source, so it has to be a real file)
     src = [HEADER]
     for j, (i, cfg, seed) in enumerate(jobs):
-        src.append(gen_source(_RECS[i], cfg, '%d_%d' % (chunk_id, j)))
+        tag = '%d_%d' % (chunk_id, j)
+        if _is_multi(cfg):
+            src.append(gen_source_multi(_MCASES[i]['case'], _MCASES[i]['x'], cfg, tag))
+        else:
+            src.append(gen_source(_RECS[i], cfg, tag))
     path = os.path.join(_WORK, 'c34gen_%d.py' % chunk_id)
     with open(path, 'w') as f:
         f.write('\n'.join(src))
     mod = load_module(path, 'c34gen_%d' % chunk_id)
     out = []
     for j, (i, cfg, seed) in enumerate(jobs):
-        rec = _RECS[i]
         rs = np.random.RandomState(seed)
+        tag = '%d_%d' % (chunk_id, j)
+        if _is_multi(cfg):
+            case, x = _MCASES[i]['case'], _MCASES[i]['x']
+            pts = multi_points(case, x, cfg, rs)
+            if not pts:
+                out.append({'i': i, 'cfg': cfg, 'skip': 'no point satisfies the domain constraints'})
+                continue
+            obj = getattr(mod, ('f_' if case['sc']['api'] == 'func' else 'C_') + tag)
+            fails, info = compare_multi(case, x, cfg, obj, pts)
+            out.append({'i': i, 'cfg': cfg, 'pts': [{v: a.tolist() for v, a in pt.items()} for pt in pts], 'yvals': [],
+                        'src': gen_source_multi(case, x, cfg, 'k'),
+                        'fails': [(f[0], c14._l(f[1]), c14._l(f[2]), f[3]) for f in fails[:4]], 'info': info})
+            continue
+        rec = _RECS[i]
         names = sorted(rec['vars'])
         shapes = {v: SHP[s] for v, s in zip(names, cfg['shapes'])}
         pts = []
@@ -302,7 +669,6 @@ def _worker(arg):
             continue
         ysh = yshape_of(cfg)
         yvals = [np.round(rs.uniform(-2, 2, size=ysh), 3) for _ in pts]
-        tag = '%d_%d' % (chunk_id, j)
         obj = getattr(mod, ('f_' if cfg['kind'] in ('efc', 'ifc') else 'C_') + tag)
         fails, info = compare(rec, cfg, obj, pts, yvals)
         out.append({'i': i, 'cfg': cfg, 'pts': [{v: a.tolist() for v, a in pt.items()} for pt in pts],
@@ -339,6 +705,67 @@ def nonsmooth(rec):
     return bool(tree_funcs(rec['e']) & {'maximum', 'minimum', 'abs'})
 
 
+def multi_jobs(ctx, recs, quick, tw):
+    """the 'multi' family: structures from FuncSig.tla, a stratified seeded selection composed with trees and judged by
+    FuncSigJudge.tla; returns the jobs (index into _MCASES, cfg, seed) and statistics"""
+    global _MCASES
+    structs = enumerate_structures(ctx, not quick, workers=tw)
+    mrnd = random.Random(ctx.seed + 17)
+    n_mcs, n_mjax = (640, 200) if quick else (4000, 1600)
+    by_cls = {}
+    for st in structs:
+        by_cls.setdefault(struct_class(st), []).append(st)
+    for k in by_cls:
+        mrnd.shuffle(by_cls[k])
+    pool = [r for r in recs if r['vars']]
+    sel = []
+    for meth, budget in (('cs', n_mcs), ('jax', n_mjax)):
+        # round-robin over the classes (ImplicitFuncComp twice: it is the only kind with a free argument order of states)
+        keys = [k for k in sorted(by_cls) if multi_configs(by_cls[k][0], not quick)[meth]]
+        keys = keys + [k for k in keys if k[0] == 'ifc']
+        n, it = 0, 0
+        while n < budget and it < 50 * budget:
+            k = keys[it % len(keys)]
+            it += 1
+            st = by_cls[k][mrnd.randrange(len(by_cls[k]))]
+            cfs = multi_configs(st, not quick)[meth]
+            # alternate coloring on / off inside a class
+            want_col = (it // len(keys)) % 2 == 1
+            cfs2 = [c for c in cfs if c['col'] == want_col] or cfs
+            cfg = dict(mrnd.choice(cfs2))
+            case = compose_case(st, pool, mrnd, meth == 'cs')
+            if case is None:
+                continue
+            sel.append((st, case, cfg))
+            n += 1
+    if not sel:
+        raise MachineryError('no multi-variable case composed')
+    xs = judge_cases(ctx, [c for _, c, _ in sel], workers=tw)
+    _MCASES = []
+    jobs = []
+    for (st, case, cfg), x in zip(sel, xs):
+        if x['v'] != st['v']:
+            raise MachineryError('FuncSigJudge and FuncSig disagree on the layout of %s' % json.dumps(case['sc']))
+        if nonsmooth_multi(x) and (cfg['col'] or cfg['kind'] in ('jexp', 'jimp')):
+            cfg['npts'] = 1
+        _MCASES.append({'case': case, 'x': x, 'cls': struct_class(st)})
+        jobs.append((len(_MCASES) - 1, cfg, mrnd.randrange(1 << 30)))
+    stat = {'structures': len(structs), 'classes': sorted({'%s/%s/%s' % m['cls'] for m in _MCASES}),
+            'cs': sum(1 for j in jobs if j[1]['meth'] == 'cs'), 'jax': sum(1 for j in jobs if j[1]['meth'] == 'jax')}
+    need = {('ifc', d, w) for d in ('fwd', 'rev') for w in ('states-last', 'interleaved', 'state-order-differs')}
+    if not need <= {m['cls'] for m in _MCASES}:
+        raise MachineryError('vacuous: the ImplicitFuncComp argument-order classes are not all covered: %s' % stat['classes'])
+    return jobs, stat
+
+
+def pred_ifc_state_order(scn, info):
+    """ImplicitFuncComp whose state arguments appear in the signature in another order than their residuals are
+    returned (= the order of the component's outputs): the states are handed over positionally"""
+    cfg = scn.get('cfg', {})
+    return (cfg.get('fam') == 'multi' and cfg.get('kind') == 'ifc'
+            and (scn.get('layout') or {}).get('kept') is False)
+
+
 def pred_single_input_jax(scn, info):
     """ExplicitFuncComp / ImplicitFuncComp, method='jax', forward direction, a function of one differentiable argument"""
     cfg = scn.get('cfg', {})
@@ -363,13 +790,23 @@ def pred_jimp_coloring(scn, info):
 
 PREDS = {'C34-funccomp-jax-single-input': pred_single_input_jax,
          'C34-implicitfunccomp-jax-coloring-direction': pred_ifc_jax_coloring_direction,
-         'C34-jaximplicit-coloring': pred_jimp_coloring}
+         'C34-jaximplicit-coloring': pred_jimp_coloring,
+         'C34-implicitfunccomp-state-order': pred_ifc_state_order}
 
 
 def replay(ctx):
     with open(ctx.replay) as f:
         stored = json.load(f)
     sc = stored['scenario']
+    if _is_multi(sc.get('cfg', {})):
+        x = judge_cases(ctx, [sc['case']])[0]
+        fails, info = run_one_multi(sc['case'], x, sc['cfg'], sc['pts'], ctx.work)
+        ctx.impl = ctx.evaluations = 1
+        ctx.rule = 'replay of one stored scenario'
+        ctx.sample({'replayed': ctx.replay, 'failures': [f[0] for f in fails]})
+        for f in fails[:1]:
+            ctx.violation(sc, c14._l(f[1]), c14._l(f[2]), f[0], snippet=snippet_multi(sc['case'], x, sc['cfg'], sc['pts']))
+        return
     c14.enumerate_trees(ctx, UN_QUICK, BIN_ALL, 1, 1)
     rec = sc['rec']
     rec['vars'] = sorted(rec['vars'])
@@ -424,20 +861,49 @@ def run(ctx):
             if by_kind[k] and len(jax_sel) < n_jax:
                 jax_sel.append(by_kind[k].pop())
     jobs = cs_jobs[:n_cs] + jax_sel
+    mjobs, mstat = multi_jobs(ctx, recs, quick, tw)
     for j in jobs:
         # The property quantifies over smooth functions.  Trees with maximum/minimum/abs are still replayed (away from
         # their kinks), but only at one point where the component samples a sparsity pattern at its first linearization
         # (declared coloring; jax components, which also drop sub-Jacobians that are entirely zero at that point).
         if nonsmooth(recs[j[0]]) and (j[1]['col'] or j[1]['kind'] in ('jexp', 'jimp')):
             j[1]['npts'] = 1
+    jobs += mjobs
     rnd.shuffle(jobs)
     nchunks = nproc * 6
     chunks = [(k, c) for k, c in enumerate(split(jobs, nchunks)) if c]
     res = [x for rs in pmap(_worker, chunks, nproc=nproc) for x in rs]
     nrun = nskip = npoints = 0
     classes, per_kind = {}, {}
+    mseen = {}
     for o in res:
-        rec, cfg = recs[o['i']], o['cfg']
+        cfg = o['cfg']
+        if _is_multi(cfg):
+            if 'skip' in o:
+                nskip += 1
+                continue
+            nrun += 1
+            npoints += len(o['pts'])
+            mc = _MCASES[o['i']]
+            case, x, cls = mc['case'], mc['x'], mc['cls']
+            if o['info'].get('dir') not in (None, x['v']['dir']):
+                raise MachineryError('FuncSig.Dir = %s but the component differentiates in %s mode: %s'
+                                     % (x['v']['dir'], o['info']['dir'], json.dumps(case['sc'])))
+            kk = 'multi:%s/%s%s' % (cfg['kind'], cfg['meth'], '/colored' if cfg['col'] else '')
+            per_kind[kk] = per_kind.get(kk, 0) + 1
+            ck = '%s/%s/%s' % cls
+            mseen[ck] = mseen.get(ck, 0) + 1
+            ctx.note_nontrivial('m/%s/%s' % (json.dumps(case, sort_keys=True), json.dumps(cfg, sort_keys=True)))
+            for f in o['fails'][:1]:
+                scn = {'source': o['src'], 'cfg': cfg, 'pts': o['pts'], 'point': f[3], 'case': case,
+                       'structure_class': list(cls), 'layout': x['v'], 'branch': nonsmooth_multi(x)}
+                inf = {'clause': f[0], 'observed': f[2]}
+                cl = [k for k, pr in PREDS.items() if pr(scn, inf)]
+                cl = cl[0] if cl else 'multi %s/%s %s: %s' % (cfg['kind'], cfg['meth'], ck, f[0])
+                classes[cl] = classes.get(cl, 0) + 1
+                ctx.violation(scn, f[1], f[2], f[0], snippet=snippet_multi(case, x, cfg, o['pts']))
+            continue
+        rec = recs[o['i']]
         if 'skip' in o:
             nskip += 1
             continue
@@ -457,15 +923,25 @@ def run(ctx):
             ctx.violation(scn, f[1], f[2], f[0], snippet=snippet(rec, cfg, o['pts'], o['yvals']))
     if nrun == 0:
         raise MachineryError('no scenario was executed')
+    missing = [k for k in mstat['classes'] if not mseen.get(k)]
+    if missing:
+        raise MachineryError('vacuous: no executed multi-variable scenario in the classes %s' % missing)
     ctx.impl = nrun
     ctx.evaluations = npoints
     ctx.exhaustive = False
     ctx.extra.update({'failure_classes': classes, 'scenarios_per_component_kind': per_kind,
                       'scenarios_skipped_infeasible_domain': nskip, 'trees_exhaustive': nexh,
-                      'trees_simulated': len(sim)})
+                      'trees_simulated': len(sim), 'multi_structures_enumerated': mstat['structures'],
+                      'multi_scenarios_per_structure_class': mseen})
     shown = 0
     for o in res:
-        if 'skip' not in o and shown < 3 and o['cfg']['kind'] == ['efc', 'jimp', 'jexp'][shown]:
+        if 'skip' not in o and _is_multi(o['cfg']) and o['cfg']['kind'] == 'ifc' and \
+                _MCASES[o['i']]['cls'][2] == 'interleaved':
+            ctx.sample({'cfg': o['cfg'], 'structure': _MCASES[o['i']]['case']['sc'], 'layout': _MCASES[o['i']]['x']['v'],
+                        'source': o['src'], 'points': o['pts'][:1]})
+            break
+    for o in res:
+        if 'skip' not in o and not _is_multi(o['cfg']) and shown < 2 and o['cfg']['kind'] == ['efc', 'jimp'][shown]:
             ctx.sample({'cfg': o['cfg'], 'source': o['src'], 'points': o['pts'][:1]})
             shown += 1
     if shown == 0:
@@ -476,8 +952,15 @@ def run(ctx):
                 '| jax, declare_coloring on/off, use_jit on/off; residual y - e(x) or e(x0, y)) and JaxExplicitComponent / '
                 'JaxImplicitComponent (automatic | declared partials, declare_coloring on/off, use_jit on/off, matrix_free) x '
                 'shapes {(), (1,), (3,)%s, scalar/array mixes}, two seeded points each; non-trivial = array shapes, coloring '
-                'or an implicit component' % (nexh, len(UN_QUICK if quick else UN_ALL), len(sim), 3 if quick else 4,
-                                              min(n_cs, len(cs_jobs)), len(jax_sel), ', (2,2)' if not quick else ''))
+                'or an implicit component.  Multi-variable family: all %d structures of FuncSig.tla (1-3 inputs x 1-2 '
+                'outputs/states x every argument order x return order x add_output order x named|positional returns x '
+                'shapes; func API and jax classes), a seeded selection of %d (%d complex-step, %d jax) spread evenly over '
+                '(component kind x partial direction fwd|rev x states last|interleaved|in another order than the '
+                'residuals), each composed with Expr.tla trees bound to arguments and judged by FuncSigJudge.tla '
+                '(residual trees, every block D(tree, argument), domains); all of them non-trivial'
+                % (nexh, len(UN_QUICK if quick else UN_ALL), len(sim), 3 if quick else 4,
+                   min(n_cs, len(cs_jobs)), len(jax_sel), ', (2,2)' if not quick else '',
+                   mstat['structures'], len(mjobs), mstat['cs'], mstat['jax']))
     ctx.assumptions = [
         'primitive functions are evaluated by NumPy on the harness side (trusted base); the spec owns the tree, D and Dom',
         'method=cs scenarios exclude trees with abs / arctan2 (numpy.abs and numpy.arctan2 are not complex-step safe: the '
